@@ -1,4 +1,5 @@
 import RadicaleModel.Server
+import RadicaleModel.ContentLength
 /-
   C20 — the built-in server bounds concurrency and request size and shuts down cleanly.   (partial:
   sockets, the idle-client time-out and wire-level completeness of responses are observed, not modelled)
@@ -147,6 +148,56 @@ theorem oversize_refused (maxLen : Int) (len : Nat) (hpos : 0 < maxLen) :
   constructor
   · intro h; exact h.2
   · intro h; exact ⟨⟨by omega, hpos⟩, h⟩
+
+/-! ### the raw `Content-Length` header (model RadicaleModel/ContentLength.lean): whatever text the client puts there,
+    a handler never takes in more body bytes than the limit -/
+
+section ContentLength
+open Radicale Radicale.ContentLength
+
+/-- **the request size is bounded for every header text**: with the built-in server and a positive limit, no value of
+    the `Content-Length` header — negative, signed, padded, with underscores, not a number — and no amount of data the
+    client sends makes a handler take in more than `max_content_length` bytes (the reader as repaired by fix F29) -/
+theorem body_taken_bounded (maxLen : Int) (hpos : 0 < maxLen) (raw : Str) (avail : Nat) :
+    ((handle true true maxLen raw avail).2 : Int) ≤ maxLen := by
+  unfold handle
+  cases hp : pyInt raw with
+  | none => simp; omega
+  | some cl =>
+    simp only [Bool.true_and]
+    by_cases hgt : cl > maxLen
+    · have : cl ≠ 0 := by omega
+      simp [this, hpos, hgt]; omega
+    · by_cases h0 : cl = 0
+      · simp [h0]; omega
+      · by_cases hneg : cl < 0
+        · simp [h0, hgt, hneg]; omega
+        · simp only [bne_iff_ne, ne_eq, h0, not_false_eq_true, decide_true, hpos, hgt, decide_false, Bool.and_false,
+            Bool.false_eq_true, if_false, hneg]
+          split
+          · simp only; omega
+          · split
+            · simp only; omega
+            · simp only; omega
+
+/-- a declared length above the limit is answered 413 with nothing read, whatever follows -/
+theorem declared_oversize_reads_nothing (fixed : Bool) (maxLen : Int) (hpos : 0 < maxLen) (raw : Str) (avail : Nat) (cl : Int)
+    (hp : pyInt raw = some cl) (hgt : cl > maxLen) : handle fixed true maxLen raw avail = (.tooLarge, 0) := by
+  have : cl ≠ 0 := by omega
+  simp [handle, hp, this, hpos, hgt]
+
+/-- Finding F29 as a theorem: before the fix `Content-Length: -1` made the reader call `read(-1)` — everything the
+    client cares to send is taken in, limit or not -/
+theorem f29_negative_length_was_unbounded (avail : Nat) :
+    handle false true 1000 "-1".toList avail = (.proceeds, avail) ∧ handle true true 1000 "-1".toList avail = (.badRequest, 0) := by
+  constructor <;> rfl
+
+-- how header texts are read: as Python's int() reads them
+example : pyInt " 12 ".toList = some 12 ∧ pyInt "+1_0".toList = some 10 ∧ pyInt "-0".toList = some 0 ∧ pyInt [] = some 0 ∧
+    pyInt "1__0".toList = none ∧ pyInt "_1".toList = none ∧ pyInt "0x10".toList = none ∧ pyInt "-".toList = none ∧ pyInt " ".toList = none := by
+  decide +kernel
+
+end ContentLength
 
 -- non-vacuity: with max = 1, a second client waits until the first is done and is then accepted
 example : (run 1 init [.arrive, .arrive, .loop, .loop]).accepted = 1 := by decide
